@@ -74,6 +74,8 @@ class C07(Property):
         md = spec["max_dist"]
         md = np.inf if md in (None, "inf") else float(md)
         ctx.cls(spec["mode"], method, f"dim{spec['dim']}", "grid" if grid is not None else "nogrid")
+        if spec.get("far"):
+            ctx.cls("far-from-origin")
         if spec.get("backwards"):
             ctx.cls("backwards-in-time")
         links = set()
